@@ -354,6 +354,9 @@ def to_arrays(case):
     halo = {k: np.array(h[k], dtype=np.float64).reshape(H, 3) for k in HCOLS3}
     halo.update({k: np.array(h[k], dtype=np.float64) for k in HCOLS1})
     halo['hid'] = np.array(h['hid'], dtype=np.int64)
+    for k in ('hsigma3d', 'hc', 'hrvir'):
+        if k in h:
+            halo[k] = np.array(h[k], dtype=np.float64)
     part = {k: np.array(p[k], dtype=np.float64).reshape(P, 3) for k in PCOLS3}
     part.update({k: np.array(p[k], dtype=np.float64) for k in PCOLS1})
     part['phid'] = np.array(p['phid'], dtype=np.int64)
@@ -486,8 +489,9 @@ class Recorder:
     observe their arguments and return values inside a real gen_gal_cat call"""
 
     def __enter__(self):
-        self.oc, self.os = G.gen_cent, G.gen_sats
+        self.oc, self.os, self.on = G.gen_cent, G.gen_sats, G.gen_sats_nfw
         self.cent_args = self.cent_out = self.sats_args = self.sats_out = None
+        self.nfw_args = self.nfw_kwargs = self.nfw_out = None
 
         def c(*a):
             self.cent_args = a
@@ -499,11 +503,16 @@ class Recorder:
             self.sats_out = self.os(*a)
             return self.sats_out
 
-        G.gen_cent, G.gen_sats = c, s
+        def n(*a, **kw):
+            self.nfw_args, self.nfw_kwargs = a, kw
+            self.nfw_out = self.on(*a, **kw)
+            return self.nfw_out
+
+        G.gen_cent, G.gen_sats, G.gen_sats_nfw = c, s, n
         return self
 
     def __exit__(self, *exc):
-        G.gen_cent, G.gen_sats = self.oc, self.os
+        G.gen_cent, G.gen_sats, G.gen_sats_nfw = self.oc, self.os, self.on
         return False
 
 
@@ -520,3 +529,92 @@ def tracer_table(d, ids):
     t = {k: np.array(d[k]) for k in ('x', 'y', 'z', 'vx', 'vy', 'vz', 'mass')}
     t['id'] = np.array(ids)
     return t
+
+
+# ----------------------------------------------------------------------------- NFW satellites (nfw=True)
+
+NFW_DRAW_LEN = 200000
+
+
+@njit
+def _seed_numba(s):
+    np.random.seed(s)
+
+
+@njit
+def _poisson_seq(means):
+    out = np.zeros(len(means), dtype=np.int64)
+    for i in range(len(means)):
+        out[i] = np.random.poisson(means[i])
+    return out
+
+
+def nfw_extend(rng, case):
+    """turn a case into an nfw=True case: the extra halo columns gen_sats_nfw reads, the optional NFW / velocity
+    parameters, moderate host masses (the number of satellites must stay below len(NFW_draw): compute_fast_NFW
+    starts reading NFW_draw at the satellite's own index)"""
+    H = len(case['halo']['hmass'])
+    if case['flavor'] != 'exact':
+        case['halo']['hmass'] = (10 ** rng.uniform(11.5, 14.2, H)).tolist()
+    case['halo']['hsigma3d'] = rng.uniform(100, 600, H).tolist()
+    case['halo']['hc'] = rng.uniform(3, 12, H).tolist()
+    case['halo']['hrvir'] = rng.uniform(0.2, 2.5, H).tolist()
+    for T, d in case['tracers'].items():
+        if rng.random() < 0.6:
+            d['f_sigv'] = float(rng.choice([0.0, 0.5, 1.0]))
+        if T == 'ELG' and rng.random() < 0.5:
+            d['nfw_rescale'] = float(rng.choice([1.0, 0.5, 2.0]))
+    case['nfw'] = True
+    case['nfw_seed'] = int(rng.integers(0, 2 ** 31 - 1))
+    case['label'] = case.get('label', '') + ':nfw'
+    place_randoms(rng, case)      # host masses changed
+    return case
+
+
+def nfw_draw_array(case):
+    r = np.random.default_rng(case['nfw_seed'])
+    return r.uniform(0.01, 2.0, NFW_DRAW_LEN)    # <= every concentration hc >= 3: no re-draw loop
+
+
+def nfw_means(case, arr, keep_cent):
+    """Poisson means of gen_sats_nfw, in the order the kernel draws them: host by host, LRG, ELG, QSO
+    (enabled ones): occupation x ic, ELG variant chosen by the host's own central code; no weights, no ranks"""
+    H = len(arr['halo']['hmass'])
+    h = arr['halo']
+    fake = dict(arr, part=dict(phmass=h['hmass'], pweights=np.ones(H), pdeltac=h['hdeltac'], pfenv=h['hfenv'],
+                               pshear=h['hshear'], pranks=np.ones(H), pranksv=np.ones(H), pranksp=np.ones(H),
+                               pranksr=np.ones(H)))
+    w5 = sat_widths(dict(case, ranks=False), fake)
+    w3 = sat_triples(w5, np.asarray(keep_cent))
+    en = enabled(case)
+    means, owner = [], []
+    for i in range(H):
+        for t in range(3):
+            if en[t]:
+                means.append(w3[i, t])
+                owner.append((i, t))
+    return np.array(means, dtype=np.float64), owner
+
+
+def run_real_nfw(case, arr):
+    import warnings
+    draw = nfw_draw_array(case)
+    _seed_numba(case['nfw_seed'])
+    with warnings.catch_warnings():
+        warnings.simplefilter('ignore')
+        with Recorder() as rec:
+            out = G.gen_gal_cat(arr['halo'], arr['part'], arr['tracers'], arr['params'], Nthread=NTHREAD,
+                                enable_ranks=bool(case['ranks']), rsd=bool(case['rsd']), nfw=True, NFW_draw=draw)
+    return out, rec
+
+
+def expected_nfw_counts(case, arr, keep_cent):
+    """replay the kernel's Poisson draws: same seed, same generator, same order, the harness' own means"""
+    means, owner = nfw_means(case, arr, keep_cent)
+    _seed_numba(case['nfw_seed'])
+    draws = _poisson_seq(means)
+    H = len(arr['halo']['hmass'])
+    cnt = np.zeros((H, 3), dtype=np.int64)
+    for (i, t), n in zip(owner, draws):
+        cnt[i, t] = n
+    return cnt, means
